@@ -359,27 +359,35 @@ Fixpoint parse_all (lines : list pstr) : option (list (str * P)) :=
                end
   end.
 
-(* ---- the character loop: tokenisation of the structure string *)
-Lemma chars_loop {R} prob (body : pstr -> rt_base P -> lctl R (rt_base P)) (fail : R) k :
-  (forall c nb, body [c] nb =
-     if isalpha c then LCont {| bs_prob := bs_prob nb; bs_repl := bs_repl nb ++ [[c]] |}
-     else match rev (bs_repl nb) with
+(* ---- the character loop: tokenisation of the structure string.  The loop carries the list of
+   replacements in some state St (the new_base record, or a plain local list): [put] builds the
+   state from the list *)
+Lemma chars_loop {R St} (put : list pstr -> St) (body : pstr -> St -> lctl R St) (fail : R) k :
+  (forall c l, body [c] (put l) =
+     if isalpha c then LCont (put (l ++ [[c]]))
+     else match rev l with
           | [] => LRet fail
-          | t :: acc => LCont {| bs_prob := bs_prob nb; bs_repl := rev acc ++ [t ++ [c]] |}
+          | t :: acc => LCont (put (rev acc ++ [t ++ [c]]))
           end) ->
   forall s acc,
-  rt_for (rt_chars s) body {| bs_prob := prob; bs_repl := rev acc |} rt_no_else k =
+  rt_for (rt_chars s) body (put (rev acc)) rt_no_else k =
   match tokenize_aux isalpha s acc with
-  | Some toks => k {| bs_prob := prob; bs_repl := toks |}
+  | Some toks => k (put toks)
   | None => fail
   end.
 Proof.
   intros Hb. induction s as [|c r IH]; intros acc; cbn [rt_chars map rt_for tokenize_aux].
   - reflexivity.
-  - rewrite Hb. cbn [bs_prob bs_repl]. destruct (isalpha c).
+  - rewrite Hb. destruct (isalpha c).
     + change (rev acc ++ [[c]]) with (rev ([c] :: acc)). apply IH.
     + rewrite rev_involutive. destruct acc as [|t acc']; [reflexivity|].
       change (rev acc' ++ [t ++ [c]]) with (rev ((t ++ [c]) :: acc')). apply IH.
+Qed.
+
+Lemma rt_index_last {X} (G : list X) x : rt_index (G ++ [x]) (-1) = Done x.
+Proof.
+  unfold rt_index. rewrite app_length, Nat.add_1_r, rt_pos_last.
+  rewrite nth_error_app2 by lia. now rewrite Nat.sub_diag.
 Qed.
 
 (* tokens are never empty *)
@@ -437,14 +445,28 @@ Proof.
 Qed.
 
 
+(* ... the same written as a for loop that builds the new list *)
+Lemma caps_for {R} (body : pstr -> list pstr -> lctl R (list pstr)) (k : list pstr -> R) :
+  (forall (c : N) (len : list N) (m : list (list N)),
+     body (c :: len) m = LCont (if N.eqb c chA then m ++ [c :: len; chC :: len] else m ++ [c :: len])) ->
+  forall (toks m : list (list N)), Forall (fun t => t <> []) toks ->
+  rt_for toks body m rt_no_else k = k (m ++ insert_caps toks).
+Proof.
+  intros Hb. induction toks as [|t r IH]; intros m Hne; cbn [rt_for insert_caps].
+  - now rewrite app_nil_r.
+  - inversion Hne as [|? ? Ht Hr]; subst. destruct t as [|c len]; [contradiction|].
+    rewrite Hb. destruct (N.eqb c chA); rewrite (IH _ Hr), <- app_assoc; reflexivity.
+Qed.
+
 Lemma is_M_rt2 s : is_M s = TextFile.str_eqb s [77%N].
 Proof. unfold is_M, ExpandCorr.str_eqb, chM. destruct s as [|c [|d r]]; reflexivity. Qed.
 
 (* ---- first pass (skip_brute): the probability of the first line whose structure is "M" *)
 Notation R0 := (outcome (list (rt_base P) * bool)).
 
-(* what one line of the first pass does to total_prob ([bs0]: base_structures, not touched yet) *)
-Definition scan_step (bs0 : list (rt_base P)) (ln : pstr) (t : P) : fctl R0 P :=
+(* what one line of the first pass does to total_prob ([bs0]: base_structures, not touched yet;
+   [sk]: does the code call file.seek(0) before it breaks out of the loop) *)
+Definition scan_step (sk : bool) (bs0 : list (rt_base P)) (ln : pstr) (t : P) : fctl R0 P :=
   match split_on TAB (rstrip ws ln) with
   | [] => FRet (Done (bs0, false))
   | v :: rest =>
@@ -453,35 +475,40 @@ Definition scan_step (bs0 : list (rt_base P)) (ln : pstr) (t : P) : fctl R0 P :=
         | [] => FRet (Done (bs0, false))
         | f :: _ => match pfloat f with
                     | None => FRet (Done (bs0, false))
-                    | Some p => FBrk true (f_sub fo t p)
+                    | Some p => FBrk sk (f_sub fo t p)
                     end
         end
       else FCont t
   end.
 
-(* the first pass: it fails (inl) or leaves a total_prob (inr), the file rewound either way *)
+(* the first pass: it fails (inl) or leaves a total_prob (inr) *)
 Fixpoint scan_run (bs0 : list (rt_base P)) (rest : list pstr) (t : P) : R0 + P :=
   match rest with
   | [] => inr t
-  | ln :: r => match scan_step bs0 ln t with
+  | ln :: r => match scan_step true bs0 ln t with
                | FCont t' => scan_run bs0 r t'
                | FBrk _ t' => inr t'
                | FRet v => inl v
                end
   end.
 
-Lemma scan_loop (all : list pstr) bs0 (body : pstr -> P -> fctl R0 P)
-      (orelse : rt_file -> P -> (rt_file -> P -> R0) -> R0) (k : rt_file -> P -> R0) :
-  (forall ln t, body ln t = scan_step bs0 ln t) ->
-  (forall f t k', orelse f t k' = k' (rt_seek0 f) t) ->
+(* the loop of the first pass; [K'] is what runs after it on the REWOUND file: the file is rewound
+   by the loop body before `break` and by the `else:` block (sk = true), or by the code behind the
+   loop (sk = false) *)
+Lemma scan_loop (all : list pstr) (sk : bool) bs0 (body : pstr -> P -> fctl R0 P)
+      (orelse : rt_file -> P -> (rt_file -> P -> R0) -> R0) (k : rt_file -> P -> R0) (K' : P -> R0) :
+  (forall ln t, body ln t = scan_step sk bs0 ln t) ->
+  (forall t, orelse {| f_all := all; f_rest := [] |} t k = K' t) ->
+  (forall r t, k (if sk then rt_fopen all else {| f_all := all; f_rest := r |}) t = K' t) ->
   forall rest t,
   rt_for_lines all rest body t orelse k =
-  match scan_run bs0 rest t with inl v => v | inr t' => k (rt_fopen all) t' end.
+  match scan_run bs0 rest t with inl v => v | inr t' => K' t' end.
 Proof.
-  intros Hb He. induction rest as [|ln r IH]; intros t; cbn [rt_for_lines scan_run].
-  - rewrite He. reflexivity.
+  intros Hb He Hk. induction rest as [|ln r IH]; intros t; cbn [rt_for_lines scan_run].
+  - apply He.
   - rewrite Hb. unfold scan_step. destruct (split_on TAB (rstrip ws ln)) as [|v rest]; [reflexivity|].
-    destruct (is_M v); [|apply IH]. destruct rest as [|f rest']; [reflexivity|]. destruct (pfloat f); reflexivity.
+    destruct (is_M v); [|apply IH]. destruct rest as [|f rest']; [reflexivity|].
+    destruct (pfloat f); [apply Hk|reflexivity].
 Qed.
 
 Lemma scan_run_parsed bs0 : forall rest ls t, parse_all rest = Some ls ->
@@ -657,19 +684,32 @@ Proof.
   match goal with |- context [rt_open (bopen ?x)] => replace (bopen x) with (Some lines) by (symmetry; exact Ho) end.
   cbn [rt_open rt_bind].
   match goal with |- context [rt_join ?f ?K] => set (K2 := K); change (rt_join f K2) with (f K2) end. cbv beta.
-  (* first pass *)
+  (* first pass: the loop body against scan_step, for either way of rewinding the file *)
   match goal with |- exists K3, ?lhs = _ /\ _ =>
     assert (H1 : lhs = match (if skip then scan_run [] lines (f_one fo) else inr (f_one fo)) with
                        | inl v => v | inr total => K2 (rt_fopen lines, total) end) end.
   { destruct skip; [|reflexivity]. unfold rt_for_file, rt_fopen. cbn [f_all f_rest].
-    match goal with |- rt_for_lines _ _ ?b _ ?e ?k = _ => rewrite (scan_loop lines [] b e k) end; [reflexivity| |reflexivity].
-    intros ln t. unfold scan_step. change TAB with 9%N.
-    destruct (split_on 9 (rstrip ws ln)) as [|v rest].
-    - rewrite rt_index_nil. reflexivity.
-    - rewrite rt_index_0. cbn [rt_bind]. rewrite is_M_rt2. destruct (TextFile.str_eqb v [77%N]); [|reflexivity].
-      destruct rest as [|f rest'].
-      + rewrite rt_index_1_short. reflexivity.
-      + rewrite rt_index_1. cbn [rt_bind]. unfold rt_float. destruct (pfloat f); reflexivity. }
+    match goal with |- rt_for_lines _ _ ?b _ ?e ?k = _ =>
+      first [ rewrite (scan_loop lines true [] b e k (fun t => K2 (rt_fopen lines, t)));
+              [ reflexivity
+              | (intros ln t; unfold scan_step; change TAB with 9%N;
+              destruct (split_on 9 (rstrip ws ln)) as [|v rest];
+              [ rewrite rt_index_nil; reflexivity
+              | rewrite rt_index_0; cbn [rt_bind]; rewrite is_M_rt2; destruct (TextFile.str_eqb v [77%N]); [|reflexivity];
+                destruct rest as [|f rest'];
+                [ rewrite rt_index_1_short; reflexivity
+                | rewrite rt_index_1; cbn [rt_bind]; unfold rt_float; destruct (pfloat f); reflexivity ] ])
+              | intros; reflexivity | intros; reflexivity ]
+            | rewrite (scan_loop lines false [] b e k (fun t => K2 (rt_fopen lines, t)));
+              [ reflexivity
+              | (intros ln t; unfold scan_step; change TAB with 9%N;
+              destruct (split_on 9 (rstrip ws ln)) as [|v rest];
+              [ rewrite rt_index_nil; reflexivity
+              | rewrite rt_index_0; cbn [rt_bind]; rewrite is_M_rt2; destruct (TextFile.str_eqb v [77%N]); [|reflexivity];
+                destruct rest as [|f rest'];
+                [ rewrite rt_index_1_short; reflexivity
+                | rewrite rt_index_1; cbn [rt_bind]; unfold rt_float; destruct (pfloat f); reflexivity ] ])
+              | intros; reflexivity | intros; reflexivity ] ] end. }
   rewrite H1. clear H1.
   (* second pass, for whatever total the first pass left *)
   assert (H2 : exists K3 : list (rt_base P) -> R0,
@@ -692,34 +732,48 @@ Proof.
         destruct (pfloat f) as [p|]; cbn [rt_opt rt_bind]; [|reflexivity].
         unfold rt_fdiv. destruct (f_iszero fo total); [reflexivity|]. cbn [rt_bind].
         unfold tokenize.
+        (* the character loop: the replacements live in the new_base record or in a local list *)
         match goal with |- rt_for _ ?cb _ _ ?ck = _ =>
-          pose proof (chars_loop (f_div fo p total) cb (FRet (Done (bs, false))) ck) as Hcl end.
+          first [ pose proof (chars_loop (fun l : list pstr => {| bs_prob := f_div fo p total; bs_repl := l |}) cb (FRet (Done (bs, false))) ck) as Hcl
+                | pose proof (chars_loop (fun l : list pstr => l) cb (FRet (Done (bs, false))) ck) as Hcl ] end.
         match type of Hcl with ?A -> _ => assert (Hcb : A) end.
-        { intros c nb. unfold rt_isalpha. cbn [forallb]. rewrite andb_true_r. destruct (isalpha c).
-          + destruct nb; reflexivity.
-          + unfold upd_repl. destruct (list_last_cases (bs_repl nb)) as [E0|(G & x & E0)]; rewrite E0.
-            * rewrite upd_index_nil. reflexivity.
-            * rewrite upd_index_last, rev_app_distr. cbn. now rewrite rev_involutive. }
-        specialize (Hcl Hcb v []). cbn [rev] in Hcl. rewrite Hcl.
+        { intros c l. cbv beta. unfold rt_isalpha. cbn [forallb]. rewrite andb_true_r.
+          destruct (isalpha c); cbn [negb].
+          - unfold upd_repl. cbn. reflexivity.
+          - destruct (list_last_cases l) as [E0|(G & x & E0)]; rewrite E0; unfold upd_repl; cbn [bs_repl bs_prob].
+            + repeat (first [rewrite rt_index_nil | rewrite upd_index_nil]; cbn [rt_bind]). reflexivity.
+            + repeat (first [rewrite rt_index_last | rewrite upd_index_last]; cbn [rt_bind]).
+              rewrite rev_app_distr. cbn. rewrite ?rev_involutive. reflexivity. }
+        specialize (Hcl Hcb v []). cbv beta in Hcl. cbn [rev] in Hcl. rewrite Hcl.
         match goal with |- match ?a with _ => _ end = match ?b with _ => _ end => change b with a; destruct a as [toks|] end; [|reflexivity].
-        cbn [bs_repl]. rewrite has_M_rt. destruct (negb skip || negb (rt_in [77%N] toks)); reflexivity.
-    - (* case mangling *)
+        cbv beta zeta. cbn [bs_repl]. rewrite has_M_rt. destruct skip; destruct (rt_in [77%N] toks); reflexivity.
+    - (* case mangling: a while loop that inserts into the list, or a for loop that builds a new one *)
       intros l Hl. cbv beta.
       rewrite mut_loop with (l := map base_of l).
       + cbn [app]. rewrite !map_map. reflexivity.
       + intros b Hin. apply in_map_iff in Hin. destruct Hin as ([p toks] & <- & Hin).
         destruct (Hl p toks Hin) as [Hne Hlen].
         unfold base_of, caps_of. cbn [fst snd bs_prob bs_repl].
-        match goal with |- rt_while _ ?c ?wb _ _ ?wk ?nf = _ =>
-          rewrite (caps_loop c wb wk nf p) with (pre := @nil (list N)) (rest := toks) end; try assumption.
-        * reflexivity.
-        * intros b i. reflexivity.
-        * intros pre c len r. cbn [bs_repl bs_prob]. unfold pstr, Expand.str, TextFile.str in *.
-          rewrite (rt_index_mid pre (c :: len) r). cbn [rt_bind].
-          rewrite (rt_str_index_0 c len). cbn [rt_bind]. unfold rt_join. cbn [TextFile.str_eqb]. rewrite andb_true_r.
-          change chA with 65%N. destruct (N.eqb c 65); [|reflexivity].
-          cbn [rt_bind]. rewrite (rt_slice_tail c len). unfold upd_repl. cbn [bs_repl bs_prob rt_bind app].
-          rewrite (rt_insert_after pre (c :: len) (67%N :: len) r). reflexivity. }
+        first
+        [ match goal with |- rt_while _ ?c ?wb _ _ ?wk ?nf = _ =>
+            rewrite (caps_loop c wb wk nf p) with (pre := @nil (list N)) (rest := toks) end; try assumption;
+          [ reflexivity
+          | intros b i; reflexivity
+          | intros pre c len r; cbn [bs_repl bs_prob]; unfold pstr, Expand.str, TextFile.str in *;
+            rewrite (rt_index_mid pre (c :: len) r); cbn [rt_bind];
+            rewrite (rt_str_index_0 c len); cbn [rt_bind]; unfold rt_join; cbn [TextFile.str_eqb]; rewrite andb_true_r;
+            change chA with 65%N; destruct (N.eqb c 65); [|reflexivity];
+            cbn [rt_bind]; rewrite ?(rt_index_mid pre (c :: len) r); cbn [rt_bind];
+            rewrite (rt_slice_tail c len); unfold upd_repl; cbn [bs_repl bs_prob rt_bind app];
+            rewrite (rt_insert_after pre (c :: len) (67%N :: len) r); reflexivity ]
+        | unfold pstr, Expand.str, TextFile.str in *;
+          match goal with |- rt_for _ ?cb _ _ ?ck = _ =>
+            rewrite (caps_for cb ck) end;
+          [ unfold upd_repl; cbn; reflexivity
+          | intros c len m; cbn [rt_bind]; rewrite (rt_str_index_0 c len); cbn [rt_bind TextFile.str_eqb]; rewrite andb_true_r;
+            change chA with 65%N; destruct (N.eqb c 65); [|reflexivity];
+            rewrite (rt_slice_tail c len); unfold rt_append; cbn [rt_bind app]; rewrite <- app_assoc; reflexivity
+          | exact Hne ] ]. }
   destruct H2 as (K3 & HK & Hcaps). exists K3. split; [|exact Hcaps].
   destruct (if skip then scan_run [] lines (f_one fo) else inr (f_one fo)) as [v|total]; [reflexivity|apply HK].
 Qed.
